@@ -18,7 +18,7 @@ sys.path.insert(0, VERIF)
 
 from pyvc.source import SourceIndex          # noqa: E402
 from pyvc.contracts import Registry          # noqa: E402
-from pyvc.verifier import Verifier, load_specs   # noqa: E402
+from pyvc.verifier import Verifier, load_specs, load_enums   # noqa: E402
 from pyvc.solve import discharge             # noqa: E402
 from pyvc.types import Unsupported           # noqa: E402
 
@@ -103,6 +103,7 @@ def check(pid, tier, seed):
     t0 = time.time()
     reg, mod = load_registry(pid)
     src = SourceIndex()
+    load_enums(reg, src)
     v = Verifier(src, reg, pid)
     func_reports = []
     for key, c in reg.contracts.items():
